@@ -74,7 +74,10 @@ func C05(t *rapid.T, big bool) *world.Scenario {
 				rp.Header = append(rp.Header, H(f, "hop$S;"))
 			}
 		}
-		switch Weighted(t, "conn", 40, 30, 30) {
+		switch Weighted(t, "conn", 34, 26, 26, 14) {
+		case 3:
+			// the nominations spread over several Connection field lines
+			rp.Header = append(rp.Header, H("Connection", "keep-alive"), H("Connection", "X-Hop"), H("Connection", "x-other-hop"), H("X-Hop", "hop$S;"), H("X-Other-Hop", "hop$S;"))
 		case 1:
 			rp.Header = append(rp.Header, H("Connection", "X-Hop"), H("X-Hop", "hop$S;"))
 		case 2:
@@ -125,8 +128,10 @@ func C05(t *rapid.T, big bool) *world.Scenario {
 		if Pct(t, lbl+"-conn304", 25) {
 			// the 304 travelled over a connection of its own: what its Connection field names is
 			// hop-by-hop on that hop only, and says nothing about the stored response's fields
-			cv := Pick(t, lbl+"-conn304v", "X-Hop", "x-multi, X-Hop", "X-Other-Hop, close", "Content-Type, Set-Cookie", "X-Obs")
-			c.Header = append(c.Header, H("Connection", cv))
+			cv := Pick(t, lbl+"-conn304v", "X-Hop", "x-multi, X-Hop", "X-Other-Hop, close", "Content-Type, Set-Cookie", "X-Obs", "keep-alive|X-Hop")
+			for _, line := range strings.Split(cv, "|") {
+				c.Header = append(c.Header, H("Connection", line))
+			}
 			if strings.Contains(cv, "X-Hop") && Pct(t, lbl+"-conn304f", 50) {
 				c.Header = append(c.Header, H("X-Hop", "hop$S;"))
 			}
